@@ -30,8 +30,13 @@ CONFIG.update(
     level_text=("Lean 4 theorems over exact list models of the helpers: both circular swaps return permutations, never panic on "
                 "valid input, agree, and realise the closed form i_k -> i_{k+1 mod n}; both translocation helpers agree on every "
                 "input (equal results on valid input, both panic otherwise) and return permutations; multi-point and uniform "
-                "crossover are position-wise with both genes conserved and lengths kept; arithmetic crossover is convex and "
-                "conserves coordinate sums (ordered field). Tied to /repo by running the real helpers exhaustively in a small "
+                "crossover are position-wise with both genes conserved and lengths kept; cycle crossover on two permutations never "
+                "panics, is position-wise and returns permutations (loop invariant over the cycle table); arithmetic crossover is "
+                "convex and conserves coordinate sums (ordered field); components as functions of witnesses: rate-gated mutations "
+                "keep the dimension and are the identity at rate 0, the five permutation mutations return permutations for every "
+                "legal witness, the recombination frame's offspring counts, DEMutation's format, DE crossovers position-wise, the "
+                "crossover gate (with the pc = 0 / draw 0 counterexample)."
+                " Tied to /repo by running the real helpers exhaustively in a small "
                 "scope and the real components on seeded populations, diffing against the compiled model (K) and evaluating the "
                 "property predicate on the implementation's output (O)."),
     level_note=("Trusted: Lean kernel; slice/iterator primitives represented by list semantics; harness + driver printing. "
